@@ -384,6 +384,12 @@ static Prog genProg(Rng& r, int depth, std::vector<Prog>& pool) {
   }
   Prog a = genProg(r, depth - 1, pool);
   if (k <= 8) {  // integer translation (k==8: through Warp, which re-applies the fill rule)
+    if (r.below(6) == 0) {   // far away and back, materialised out there: the pixel set is unchanged (2^40 + small integers are exact doubles), only the
+      const double F = 1099511627776.0;   // carried tolerance grows to the rounding size at 2^40 (about 1): later Booleans must still resolve unit pixels
+      CrossSection f = a.cs.Translate(vec2(r.below(2) ? F : 0.0, r.below(2) ? -F : F)); Rect bnd = f.Bounds(); (void)f.Area(); (void)f.NumVert();
+      CrossSection c = f.Translate(vec2(-(bnd.min.x - a.cs.Bounds().min.x), -(bnd.min.y - a.cs.Bounds().min.y)));
+      return a.cs.IsEmpty() ? a : Prog{c, "T 0 0 " + a.toks};
+    }
     int dx = r.below(4) ? r.range(-2, 2) : r.range(-4, 4), dy = r.below(4) ? r.range(-2, 2) : r.range(-4, 4);
     CrossSection c = k == 7 ? a.cs.Translate(vec2(dx, dy)) : a.cs.Warp([dx, dy](vec2& v) { v.x += dx; v.y += dy; });
     return Prog{c, "T " + std::to_string(dx) + " " + std::to_string(dy) + " " + a.toks};
